@@ -191,6 +191,8 @@ class C17(Prop):
     required_labels = {'quick': ['nontrivial=True', 'kind=gen', 'kind=small', 'kind=hashseed'],
                        'thorough': ['nontrivial=True', 'kind=gen', 'kind=small', 'kind=hashseed']}
 
+    fuzz = {'thorough': {'runs': 30000, 'max_time': 60, 'procs': 4}}
+
     def strategy(self, tier):
         return _case()
 
